@@ -7,7 +7,6 @@ use std::panic::{catch_unwind, AssertUnwindSafe};
 use std::rc::Rc;
 use std::sync::{Arc, Mutex};
 
-use rayon::ThreadPool;
 use shred::{Dispatcher, DispatcherBuilder, MultiDispatcher, World};
 
 use crate::conductor::{Layout, LayoutSet};
@@ -37,10 +36,21 @@ pub fn panic_msg(p: &Box<dyn std::any::Any + Send>) -> String {
     }
 }
 
-static POOLS: Mutex<Option<HashMap<(usize, usize), Arc<ThreadPool>>>> = Mutex::new(None);
+#[cfg(feature = "par")]
+pub type Pool = Arc<rayon::ThreadPool>;
+/// without shred's `parallel` feature there are no pools
+#[cfg(not(feature = "par"))]
+pub type Pool = ();
+
+#[cfg(not(feature = "par"))]
+pub fn pool(_lane: usize, _threads: usize) -> Pool {}
+
+#[cfg(feature = "par")]
+static POOLS: Mutex<Option<HashMap<(usize, usize), Pool>>> = Mutex::new(None);
 
 /// Pools are cached per (lane, size); a lane never runs two cases at once.
-pub fn pool(lane: usize, threads: usize) -> Arc<ThreadPool> {
+#[cfg(feature = "par")]
+pub fn pool(lane: usize, threads: usize) -> Pool {
     let mut g = POOLS.lock().unwrap();
     let m = g.get_or_insert_with(HashMap::new);
     m.entry((lane, threads))
@@ -76,10 +86,11 @@ pub fn build_builder(
     flat: &Flat,
     bid: usize,
     ctx: &Arc<Ctx>,
-    pool: Option<Arc<ThreadPool>>,
+    pool: Option<Pool>,
     opts: &BuildOpts,
 ) -> Result<Builder, BuildPanic> {
     let mut b = Builder::new();
+    #[cfg(feature = "par")]
     if let Some(p) = pool.clone() {
         b.add_pool(p);
     }
@@ -247,7 +258,7 @@ pub fn recover_layouts(
     flat: &Flat,
     ctx: &Arc<Ctx>,
     d: &mut Dispatcher<'static, 'static>,
-    pool: Arc<ThreadPool>,
+    pool: Pool,
 ) -> Result<LayoutSet, String> {
     let world = res::full_world(|_| 0);
     recover_with(plan, flat, ctx, 0, d, &world, pool)
@@ -260,7 +271,7 @@ fn recover_with(
     bid: usize,
     d: &mut Dispatcher<'static, 'static>,
     world: &World,
-    pool: Arc<ThreadPool>,
+    pool: Pool,
 ) -> Result<LayoutSet, String> {
     let prev = ctx.phase();
     ctx.set_phase(PHASE_IDENT);
@@ -362,7 +373,7 @@ pub struct Built {
 /// plan -> real dispatcher + recovered layouts
 pub fn build_plan(
     plan: &[Op],
-    pool: Arc<ThreadPool>,
+    pool: Pool,
     opts: &BuildOpts,
 ) -> Result<Built, String> {
     let flat = Arc::new(crate::plan::compile(&plan.to_vec()));
